@@ -27,7 +27,7 @@ LEVEL = ('Dominance proof that the saturation guards and sentinels the design re
          'necessary part of totality, not the whole of it (most of C10 is arithmetic on runtime zone data).')
 LEVEL_NOTE = ('Trusts clang 14 AST and sa/; the arithmetic inside the guarded regions and on zone tables is not analysed; '
               'a known overflow of BreakTime\'s shift product for crafted zone data with an early footer is recorded in DESIGN.md 8.6.')
-TECHNIQUE = 'must-hold branch facts (dominance) + path cuts on the CFG'
+TECHNIQUE = 'must-hold branch facts (dominance) + path cuts on the CFG; linear forms over the civil epoch; interval abstract interpretation (libc year)'
 
 
 def run(ctx):
@@ -171,9 +171,28 @@ def run(ctx):
                               'the shifted-back instant is moved forward again as min(instant, L) + offset with L = %s, which is not '
                               'time_point::max() - offset: the sum overflows at the end of the range or saturates early' % lims,
                               construct='saturate:timelocal:add')
-    ctx.check3(None if (len(mults) >= 1 and not adds and not mins) else (len(mults) >= 1 and len(adds) + len(mins) >= 1), 'C10-saturate',
+    # ... or as a plain sum  instant + offset  of the very instant that was tested against max - offset
+    mult_keys = set(ctx.facts(ff_).ident_key(m_) for (uu_, ff_) in ctx.scope(f) for m_ in walk(ff_) if any(m_ is mm for mm in mults))
+    sums = []
+    for (uu, ff) in ctx.scope(f):
+        Fx = ctx.facts(ff)
+        for x in walk(ff):
+            if x.get('kind') == 'CXXOperatorCallExpr' and callee(x) and callee(x)[0] == 'fn' and callee(x)[1].get('name') == 'operator+' \
+                    and 'time_point' in (dtype(x) or qtype(x) or '') and len(call_args(x)) == 2 and not any(x is m_ for m_ in mins):
+                ok_ = Fx.ident_key(call_args(x)[1])
+                if not any(mk_ in ok_ for mk_ in mult_keys):
+                    continue            # not the 400-year offset
+                tk = Fx.keys.key(call_args(x)[0])
+                fs = Fx.facts_at_ast(x) or frozenset()
+                good = any(op == '<=' and a == tk and re.search(r'max\(\) - ', Fx.resolve_key(b)) for (op, a, b) in fs)
+                sums.append(x)
+                ctx.check(good, 'C10-saturate', 'instant + 400-year offset only when that instant <= max - offset', x,
+                          'the shifted-back instant %s is moved forward again without having itself been tested against '
+                          'time_point::max() - offset: the sum overflows at the end of the range instead of saturating' % tk,
+                          construct='saturate:timelocal:add')
+    ctx.check3(None if (len(mults) >= 1 and not adds and not mins and not sums) else (len(mults) >= 1 and len(adds) + len(mins) + len(sums) >= 1), 'C10-saturate',
                'TimeLocal shift arithmetic found', f,
-               'found %d/%d' % (len(mults), len(adds) + len(mins)), construct='saturate:timelocal:count',
+               'found %d/%d' % (len(mults), len(adds) + len(mins) + len(sums)), construct='saturate:timelocal:count',
                unknown_why='the way TimeLocal moves the shifted-back instant forward again was not recognised (neither += under '
                            'a test against max - offset nor min(instant, max - offset) + offset)')
     ctx.minimum('C10-saturate', 9)
